@@ -677,6 +677,14 @@ func (s *Server) execute(cs *ConnState, argv [][]byte) Reply {
 		e.Writes++
 		db[string(argv[1])] = e
 		return OK()
+	case "mset":
+		if len(argv) < 3 || len(argv)%2 != 1 {
+			return Err("ERR wrong number of arguments for 'mset' command")
+		}
+		for i := 1; i+1 < len(argv); i += 2 {
+			db[string(argv[i])] = &Entry{Kind: "string", Str: append([]byte{}, argv[i+1]...), Writes: 1}
+		}
+		return OK()
 	case "append":
 		e := db[string(argv[1])]
 		if e == nil {
